@@ -15,12 +15,12 @@ const c11env = "VERIF_C11_ENV"
 func VerifC11_Required() {
 	vNativeReset()
 	mode := vInt("mode", 0, 2)
-	level := vInt("level", 0, 1)   // 0: root is selected, 1: command c is selected
-	supply := vInt("supply", 0, 4) // 0 none, 1 by name, 2 by alias, 3 by unique abbreviation, 4 by environment
-	custom := vBool("custom")      // custom message declared
-	percent := vBool("percent")    // ... one that contains a per cent sign
+	level := vInt("level", 0, 1)    // 0: root is selected, 1: command c is selected
+	supply := vInt("supply", 0, 4)  // 0 none, 1 by name, 2 by alias, 3 by unique abbreviation, 4 by environment
+	custom := vBool("custom")       // custom message declared
+	percent := vBool("percent")     // ... one that contains a per cent sign
 	inherited := vBool("inherited") // level 1: the required option is the root's (inherited) or the command's own
-	help := vInt("help", 0, 7)     // 0 no, 1 --help, 2 -? alias, 3 --hel abbreviation, 4 help command, 5 help <topic>, 6 help <unknown topic>
+	help := vInt("help", 0, 7)      // 0 no, 1 --help, 2 -? alias, 3 --hel abbreviation, 4 help command, 5 help <topic>, 6 help <unknown topic>
 	val := positional("val", "c", "help", "wrap")
 	msg := vString("msg")
 	vAssume(msg != "")
